@@ -11,6 +11,7 @@ MODFLAG="-modfile=$WORKDIR/go.mod"
 case "$prop" in
   c10*) pkgs="modeling modeling/marching" ;;
   c13*) pkgs="generator/graph generator/sync generator" ;;
+  twin) pkgs="modeling modeling/primitives modeling/meshops modeling/triangulation modeling/marching modeling/extrude trees rendering math/sdf math/geometry math/trs math/mat math/quaternion math/curves formats/ply formats/obj formats/stl formats/gltf formats/splat formats/spz formats/pts formats/txt" ;;
   selftest) pkgs="" ;;
   *) echo "build-sched: no package list for $prop" >&2; exit 2 ;;
 esac
